@@ -78,7 +78,7 @@ class CCodeMapper(LokiStringifyMapper):
         return f'"{expr.value}"'
 
     def map_cast(self, expr, enclosing_prec, *args, **kwargs):
-        _type = SymbolAttributes(BasicType.from_fortran_type(expr.name), kind=expr.kind)
+        _type = SymbolAttributes(BasicType.from_str(expr.name.lower()), kind=expr.kind)
         expression = self.parenthesize_if_needed(
             self.join_rec('', expr.parameters, PREC_NONE, *args, **kwargs),
             PREC_CALL, PREC_NONE)
